@@ -126,5 +126,6 @@ NormT(T) ==
     [] T[1] \in {"utuple", "ustar"} -> <<T[1], [i \in DOMAIN T[2] |-> NormT(T[2][i])], NormT(T[3]), [i \in DOMAIN T[4] |-> NormT(T[4][i])]>>
     [] T[1] \in {"newtype", "stype", "alias695"} -> <<T[1], T[2], NormT(T[3])>>
     [] T[1] \in {"fwd", "tvarc", "tvarb"} -> <<T[1], T[2], NormT(T[3])>>
+    [] T[1] = "rec695" -> <<"rec695", T[2], T[3], NormT(T[4])>>      \* a RECURSIVE PEP 695 alias: T[3] its body with <<"recref", name>> (bridge), T[4] its meaning unfolded
     [] OTHER -> T
 =============================================================================
